@@ -56,6 +56,8 @@ NET_CURRENT = ["JanetModel.Stream.NetCurrent." + t for t in (
 NETDRIVE_CASES = {"quick": 30000, "thorough": 600000}
 PROC_CURRENT = ["JanetModel.Proc.Current." + t for t in (
     "current_source_waitpid_options", "exit_status_exact_current", "current_source_moves_std_sources")]
+# all 2^16 status words (kernel evaluation in eight ranges, ~40 s CPU each when cold): thorough tier, and quick tier when already built
+PROC_ALL = ["JanetModel.Proc.CurrentAll." + t for t in ("status_decoder_total_current", "exit_and_signal_words_total")]
 PLUMB_CASES = {"quick": 160, "thorough": 2400}
 CURRENT = ["JanetModel.Stream.Current." + t for t in (
     "current_source_guards_read_slot", "current_source_guards_write_slot", "current_source_registers_dgram_for_write",
@@ -777,6 +779,10 @@ def run(ctx, only=None):
     cur_broken = ctx.obligations("JanetModel.Stream.Current", CURRENT)
     broken += cur_broken
     broken += ctx.obligations("JanetModel.Proc.Current", PROC_CURRENT)
+    from vlib import core as vcore
+    if not quick or os.path.exists(os.path.join(vcore.LEAN, ".lake", "build", "lib", "lean", "JanetModel", "Proc", "CurrentAll.olean")):
+        # (a cold build holds the shared lake lock for minutes: not in a quick run on a tree where it was never built)
+        broken += ctx.obligations("JanetModel.Proc.CurrentAll", PROC_ALL)
     if not quick:
         ok, log = ctx.leanchecker("JanetModel.Props.C16")
         if not ok:
@@ -992,7 +998,12 @@ def run(ctx, only=None):
         "liveness: proved as 'a read / write ends within max(1,n) productive events' and 'on an infinite schedule in which productive events "
         "keep coming some finite prefix ends the operation'; that the kernel's event sequence IS fair (readiness is reported again after a "
         "would-block) is the hypothesis of these theorems, not proved",
-        "windows (IOCP) branch of ev_callback_read/write is not modelled"])
+        "sockets: the kernel side of the listener model is the epoll contract (a connection entering the accept queue raises a readiness "
+        "edge; a level-triggered registration reports while the queue is non-empty; an EPOLLET one reports an edge once) and "
+        "getsockopt(SO_ERROR) == 0 means the handshake has not failed; both assumed, exercised by harness/C16/conn.janet on real sockets",
+        "shared-stream theorems: the composed machine takes both slot guards as present; that is the regenerated fact "
+        "Gen.Stream.guardsReadSlot / guardsWriteSlot (Stream/Current.lean)",
+        "windows (IOCP / AcceptEx / WSAConnect) branches are not modelled"])
 
 
 def replay(ctx, path):
